@@ -48,7 +48,7 @@ def execute(spec, want=("C01",), keep_trace=False):
     try:
         sess = scen.Session(bdir(), seed=seed, relay=relay, tag="r%d" % seed, **spec.get("sess", {}))
         w = sess.w
-        if "C16" in want or "state" in want:
+        if "C16" in want or "state" in want or "TSRV" in want:
             w.dump_users = True
         hs = sess.handshake()
         res["stats"]["handshake"] = hs
@@ -319,6 +319,9 @@ def abs_c16(w, sess, frames, t0, hs_len, res):
 
 
 ABSTRACT["C16"] = abs_c16
+
+import tunsrv
+ABSTRACT["TSRV"] = tunsrv.abstract
 
 
 def abs_c02(w, sess, frames, t0, hs_len, res):
